@@ -1,6 +1,7 @@
 import Panacea.Go.Prelude
 import Panacea.Model.CompKey
 import Panacea.Model.Did
+import Panacea.Model.Bank
 /-!
 # Further primitives of the translated Go subset (library functions of the SDK and the standard library)
 -/
@@ -43,5 +44,26 @@ structure SigScheme where
 `DataWithSeq{data: signableData.Marshal(), sequence: seq}` (`Did.signBytes`); on success the next sequence. -/
 def didVerify (cr : SigScheme) (sig dataBytes : Bytes) (seq : Nat) (pub : Bytes) : Nat × Bool :=
   if cr.verify pub (Did.signBytes dataBytes seq) sig then (u64add seq 1, true) else (0, false)
+
+
+/-! ## x/bank as the burn module sees it (hand-written model `Bank`, valid for cosmos-sdk v0.47.12) -/
+
+/-- the bank state together with the addresses of the module accounts -/
+structure BankWorld where
+  st : Bank.State
+  moduleAddr : Bytes → Bytes      -- `authtypes.NewModuleAddress(name)`
+
+def bankSpendableCoins (w : BankWorld) (a : Bytes) : List (Bytes × Nat) := Bank.spendableCoins w.st a
+
+/-- `SendCoinsFromAccountToModule`: `SendCoins` to the module's address (the recipient module account exists: it is
+created at genesis; a missing one would panic in the SDK) -/
+def bankSendToModule (w : BankWorld) (a moduleName : Bytes) (coins : List (Bytes × Nat)) : BankWorld × Err :=
+  match Bank.sendCoins w.st a (w.moduleAddr moduleName) coins with
+  | (s1, true) => ({ w with st := s1 }, none)
+  | (s1, false) => ({ w with st := s1 }, some "sdk/5")
+
+/-- `BurnCoins(module, coins)` of a module account that has the burner permission (tied by `Facts.maccPerms`) -/
+def bankBurnCoins (w : BankWorld) (moduleName : Bytes) (coins : List (Bytes × Nat)) : BankWorld × Err :=
+  ({ w with st := Bank.burnCoins w.st (w.moduleAddr moduleName) coins }, none)
 
 end Panacea.Go
